@@ -347,7 +347,7 @@ def wl_stft(ctx, idx, rng):
 
 def workloads(ctx):
     q = ctx.tier == "quick"
-    return [("fft", 1680 if q else 50400, wl_fft), ("names", 34, wl_names), ("stft", 540 if q else 16200, wl_stft)]
+    return [("fft", 6720 if q else 50400, wl_fft), ("names", 34, wl_names), ("stft", 2160 if q else 16200, wl_stft)]
 
 
 def setup(ctx):
